@@ -2598,3 +2598,101 @@ Proof.
       assert (HH : has (set_at i (set_rl n1 (Some Fast)) (ents b)) id) by (eapply has_set_at; eauto; apply existsb_has; auto).
       apply existsb_has in HH. congruence.
 Qed.
+
+(* ================================================================ 17. the failure counter is the number of consecutive failures *)
+
+Lemma handle_add_node_keeps_frame t n inb f t' : handle_add_node t n inb f = Some t' -> same_frame t t'.
+Proof.
+  unfold handle_add_node, same_frame. destruct (nid n =? self t); [intros X; inversion X; auto|].
+  destruct (inb && negb (initd t)); [intros X; inversion X; auto|].
+  intros H. apply with_bucket_shape in H. destruct H as (b & g' & b' & _ & _ & ->). auto.
+Qed.
+Lemma add_all_keeps_frame ns : forall t t', add_all t ns = Some t' -> same_frame t t'.
+Proof.
+  induction ns as [|n ns IH]; simpl; intros t t' H; [inversion H; unfold same_frame; auto|].
+  destruct (handle_add_node t n false false) as [t1|] eqn:E; [|discriminate].
+  destruct (handle_add_node_keeps_frame _ _ _ _ _ E) as (A1 & A2 & A3). destruct (IH _ _ H) as (B1 & B2 & B3).
+  unfold same_frame. repeat split; congruence.
+Qed.
+
+Lemma step_fails t o t' : step t o = Some t' -> fails t' = fails_step (fails t) o.
+Proof.
+  destruct o; simpl; intros H.
+  - inversion H; reflexivity.
+  - destruct (handle_add_node_keeps_frame t n false force_live t' H) as (_ & E & _); auto.
+  - destruct (handle_add_node_keeps_frame t n true false t' H) as (_ & E & _); auto.
+  - destruct (add_all_keeps_frame ns t t' H) as (_ & E & _); auto.
+  - unfold delete_node in H. apply with_bucket_shape in H. destruct H as (b & g' & b' & _ & _ & ->). reflexivity.
+  - apply reval_run_bks in H. apply H.
+  - unfold handle_response in H. destruct (find _ _) as [[id' att]|]; [|inversion H; reflexivity].
+    destruct att; simpl negb in H; cbv iota in H; [|inversion H; reflexivity].
+    apply with_bucket_shape in H. destruct H as (b & g' & b' & _ & _ & ->). reflexivity.
+  - unfold track in H.
+    set (fl := if success then 0 else fails_read (fails t) (nid n) (nip n) + 1) in *.
+    destruct (nth_error _ _) as [b|]; [|discriminate].
+    destruct (_ && _).
+    + destruct (with_bucket _ _ _) as [t2|] eqn:WB; [|discriminate].
+      apply with_bucket_shape in WB. destruct WB as (b0 & g' & b' & _ & _ & ->).
+      destruct (add_all_keeps_frame found _ t' H) as (_ & E & _). rewrite E. reflexivity.
+    + destruct (add_all_keeps_frame found _ t' H) as (_ & E & _). rewrite E. reflexivity.
+Qed.
+
+Lemma steps_fails os : forall t t', steps t os = Some t' -> fails t' = fold_left fails_step os (fails t).
+Proof.
+  induction os as [|o os IH]; simpl; intros t t' H; [inversion H; reflexivity|].
+  destruct (step t o) as [t1|] eqn:E; [|discriminate]. rewrite (IH t1 t' H). rewrite (step_fails t o t1 E). reflexivity.
+Qed.
+
+Lemma fails_get_filter_other f id ip id' ip' :
+  (id' =? id) && (ip' =? ip) = false ->
+  fails_get (filter (fun x => negb ((fst (fst x) =? id') && (snd (fst x) =? ip'))) f) id ip = fails_get f id ip.
+Proof.
+  intros Hne. induction f as [|[[i a] v] f IH]; simpl; auto.
+  destruct ((i =? id') && (a =? ip')) eqn:E; simpl.
+  - rewrite IH. apply andb_true_iff in E. destruct E as [E1 E2]. apply N.eqb_eq in E1, E2. subst.
+    rewrite Hne. reflexivity.
+  - rewrite IH. reflexivity.
+Qed.
+
+Lemma fails_read_set f id ip id' ip' v :
+  fails_read (fails_set f id' ip' v) id ip =
+  if (id' =? id) && (ip' =? ip) && ip_valid ip then v else fails_read f id ip.
+Proof.
+  unfold fails_read, fails_set. destruct (ip_valid ip) eqn:V.
+  - destruct (ip_valid ip') eqn:V'.
+    + simpl. destruct ((id' =? id) && (ip' =? ip)) eqn:E; simpl; auto. apply fails_get_filter_other; auto.
+    + destruct ((id' =? id) && (ip' =? ip)) eqn:E; simpl; auto.
+      apply andb_true_iff in E. destruct E as [_ E]. apply N.eqb_eq in E. congruence.
+  - rewrite andb_false_r. reflexivity.
+Qed.
+
+(* replaying handleTrackRequest's counter updates over a history = counting consecutive failures *)
+Lemma hist_fails_consec os : forall f id ip, ip_valid ip = true ->
+  fails_read (fold_left fails_step os f) id ip = consec os id ip (fails_read f id ip).
+Proof.
+  induction os as [|o os IH]; simpl; intros f id ip V; auto.
+  rewrite IH by auto. f_equal. destruct o; simpl; auto.
+  rewrite fails_read_set, V, andb_true_r.
+  destruct ((nid n =? id) && (nip n =? ip)) eqn:E; auto.
+  apply andb_true_iff in E. destruct E as [E1 E2]. apply N.eqb_eq in E1, E2. subst. reflexivity.
+Qed.
+
+Theorem fail_counter_is_consecutive s os t id ip :
+  steps (init s) os = Some t -> fails t = hist_fails os /\ (ip_valid ip = true -> fails_read (fails t) id ip = consec os id ip 0).
+Proof.
+  intros H. pose proof (steps_fails os (init s) t H) as E. simpl in E. split; auto.
+  intros V. rewrite E. rewrite (hist_fails_consec os [] id ip V). unfold fails_read. rewrite V. reflexivity.
+Qed.
+
+Lemma with_fails_same t : with_fails t (fails t) = t.
+Proof. destruct t; reflexivity. Qed.
+
+(* the leave-cause monitor with the counter taken from the history *)
+Theorem leave_monitor_hist s os t o t' :
+  s < two_hash -> Forall op_wf os -> steps (init s) os = Some t -> step t o = Some t' ->
+  pol_leave_b (with_fails t (hist_fails os)) o t' = true.
+Proof.
+  intros Hs Hw H1 H2. destruct (fail_counter_is_consecutive s os t 0 0 H1) as [E _]. rewrite <- E, with_fails_same.
+  destruct (reachable_inv s os Hs Hw) as (t0 & E0 & HI). rewrite H1 in E0. inversion E0; subst t0.
+  apply pol_leave_holds; auto.
+Qed.
